@@ -188,7 +188,12 @@ def gen_request(rng, idx, opts):
         m.headers.append((b"Cookie", [b"; ".join(rand_token(rng, 1, 3) + b"=" + rand_token(rng, 0, 3) for _ in range(rng.randint(1, 3)))]))
     if rng.random() < 0.15:
         import base64
-        m.headers.append((b"Authorization", [b"Basic " + base64.b64encode(rand_token(rng, 1, 4) + b":" + rand_token(rng, 0, 4))]))
+        if opts.get("digest") and rng.random() < 0.4:
+            user = re.sub(rb"[^A-Za-z0-9._-]", b"u", rand_token(rng, 1, 6))
+            m.digest_user = user
+            m.headers.append((b"Authorization", [b"Digest username=\"" + user + b"\", realm=\"r\", nonce=\"n1\", uri=\"/\", response=\"00ff\""]))
+        else:
+            m.headers.append((b"Authorization", [b"Basic " + base64.b64encode(rand_token(rng, 1, 4) + b":" + rand_token(rng, 0, 4))]))
     body_kind = "none"
     m.body = b""
     if m.method in (b"POST", b"PUT", b"PATCH") or rng.random() < 0.1:
